@@ -282,6 +282,23 @@ func TestC16(t *testing.T) {
 					rec.Count("ok:bid")
 				}
 			}
+			if lastName != "" && rapid.IntRange(0, 3).Draw(rt, "listed") == 0 {
+				// the current holder offers the name for sale: that is an offer to buy it at the asking price through
+				// MsgBuy, not a licence for anybody to register it
+				if key, ok := canonKey(strings.ReplaceAll(lastName, " ", "")); ok {
+					if n, found := w.names()[key]; found {
+						for k := 0; k < 3; k++ {
+							if chain.Acc(k).Bech == n.Value {
+								r := w.f.Exec(rnstypes.NewMsgList(n.Value, key, sdk.NewInt64Coin("ujkl", rapid.Int64Range(1, 1_000_000_000).Draw(rt, "askingPrice"))))
+								w.logf("list %s by acc%d -> %s", key, k, r)
+								if r.OK() {
+									rec.Count("ok:list")
+								}
+							}
+						}
+					}
+				}
+			}
 			var s c16Step
 			s.Acc = rapid.IntRange(0, 2).Draw(rt, "acc")
 			if lastName != "" && rapid.IntRange(0, 9).Draw(rt, "sameName") < 7 {
